@@ -35,9 +35,9 @@ def make(root, name, clock, rng):
     os.makedirs(os.path.dirname(p), exist_ok=True)
     if name.startswith("d"):
         os.makedirs(p)
-        for k in range(rng.randint(1, 3)):
-            # same file names in different sub-directories (train/0001, val/0001): the token has to cover every path
-            q = os.path.join(p, rng.choice(["", "train", "val"]), f"x{k % 2}")
+        for k in range(rng.randint(2, 4)):
+            # same file names in different sub-directories (train/x0, val/x0, x0): the token has to cover every PATH
+            q = os.path.join(p, ["train", "val", ""][k % 3], "x0" if k < 3 else f"x{k}")
             os.makedirs(os.path.dirname(q), exist_ok=True)
             open(q, "wb").write(os.urandom(4))
             clock[0] += 1
